@@ -24,13 +24,13 @@ Theorem recover_interruptible_partial : forall l disk disk' order order',
 Proof. exact recover_any_image. Qed.
 Print Assumptions recover_interruptible_partial.
 
-Theorem redo_writes_keep_disk_ok : forall l disk written, log_ok l = true -> disk_ok l disk = true ->
+Theorem redo_writes_keep_disk_ok : forall l disk written, log_ok l = true -> fresh_pages_ok l [] = true -> disk_ok l disk = true ->
   (forall p pg, In (p, pg) written -> exists k, (k <= length l)%nat /\ pg = get_page (redo (firstn k l) disk) p) ->
   disk_ok l (written ++ disk) = true.
 Proof. exact redo_writes_ok. Qed.
 Print Assumptions redo_writes_keep_disk_ok.
 
-Theorem redo_idempotent : forall l disk, log_ok l = true -> disk_ok l disk = true ->
+Theorem redo_idempotent : forall l disk,
   forall p, get_page (redo l (redo l disk)) p = get_page (redo l disk) p.
 Proof. exact redo_twice. Qed.
 Print Assumptions redo_idempotent.
